@@ -203,6 +203,10 @@ def shift_pairs(rng, k, op, t, n):
                 specials += [(big(rng, 3), 1 << 64), (big(rng, 3), (1 << 64) + 63), (big(rng, 3), (1 << 70))]
         else:
             specials += [(0, mx), (0, mx - 1)]
+            if mx > (1 << 70):
+                # `(shift / 64).to_usize().expect("capacity overflow")`: the digit count no longer fits usize
+                # (amount >= 2^70) and the operand is non-zero -> documented panic, nothing is allocated
+                specials += [(1, 1 << 70), (big(rng, 2), mx), (3, (1 << 70) + 63), (big(rng, L), (1 << 100) + 64)]
     specials += [(0, 0), (0, 5)]
     while len(out) < n:
         if i < len(specials) and i % 2 == 0:
@@ -321,6 +325,12 @@ def gen(rng, tier):
         elif op == 11:
             g = group((k, op, t), lambda: pow_pairs(rng, k, t, 4 * N))
             for (x, e) in take(g, N):
+                reqs.append("C10 form %d %s %s" % (i, wb(k, x), wu(e) if t == 13 else ws(t, e)))
+            # every operand form has its own `exp == 0` / `is_one` / `is_zero` short-cuts (`pow_impl!`, `Pow<&BigUint>`,
+            # NB.PowD.powVV/powRV/powBigVR/powBigRR): 0^0, 1^0, 0^1, x^0, x^1 on EVERY form id
+            for (x, e) in [(0, 0), (1, 0), (0, 1), (2, 0), (big(rng, 2), 0), (3, 1)]:
+                if k == 2 and x > 1:
+                    x = -x
                 reqs.append("C10 form %d %s %s" % (i, wb(k, x), wu(e) if t == 13 else ws(t, e)))
         elif shape == 6:
             for items in iter_items(rng, k, t, op, N):
